@@ -419,6 +419,10 @@ func genC11jsonPair(g *gen, seed int64) *Program {
 			ret.Size = 150 * p.Cfg.SendBuf
 		}
 		r.Handler = []Op{{K: "decode"}, {K: "return", Msg: ret}}
+		if g.p(0.12) {
+			// a handler that returns neither a response nor an error
+			r.Handler = []Op{{K: "decode"}, {K: "return", N: 1 + g.pick(2)}}
+		}
 		p.RPCs = append(p.RPCs, r)
 	}
 	return p
@@ -751,6 +755,11 @@ func oracleC11(s *Sim) {
 				if v.hRecv[0].Err.Code != int32(codes.InvalidArgument) {
 					v.fail("C11", "undecodable-request-wrong-code", "undecodable unary body (%s): the decode callback returned %s, expected InvalidArgument", rq.Note, v.hRecv[0].Err)
 				}
+			}
+			if decoded && v.hReturn != nil && v.hReturn.Err.IsNil() && len(v.hSend) == 0 && st == 200 {
+				// neither a response nor an error: never a success, whatever the encoding
+				v.fail("C11", "nil-response-answered-200|json="+fmt.Sprint(isJSON), "the handler returned a nil response and a nil error; the server answered 200 with a body of %d bytes (%q)", len(raw.RawBody), trunc(string(raw.RawBody), 40))
+				v.fail("C08", "no-response-reported-as-success|json="+fmt.Sprint(isJSON), "the handler returned a nil response and a nil error; the server answered 200 with a body of %d bytes", len(raw.RawBody))
 			}
 			if decoded && v.hReturn != nil && v.hReturn.Err.IsNil() && len(v.hSend) == 1 && v.hSend[0].Msg.Kind != 4 {
 				// the reply body is the response in the request's encoding
